@@ -6,6 +6,9 @@ pub mod c05;
 pub mod nearmiss_streams;
 pub mod c06;
 pub mod c07;
+pub mod c08;
+pub mod c09;
+pub mod c10;
 pub mod c11;
 pub mod c15;
 pub mod common;
@@ -15,5 +18,5 @@ pub mod genpool;
 use crate::run::PropertyDef;
 
 pub fn all() -> Vec<PropertyDef> {
-    vec![c01::def(), c02::def(), c03::def(), c04::def(), c05::def(), c06::def(), c07::def(), c11::def(), c15::def(), c20::def()]
+    vec![c01::def(), c02::def(), c03::def(), c04::def(), c05::def(), c06::def(), c07::def(), c08::def(), c09::def(), c10::def(), c11::def(), c15::def(), c20::def()]
 }
